@@ -47,13 +47,19 @@ structure RegSt where
   lines : List (List String)      -- buffered program lines, newest first
   st : Option RS                  -- `none` after a panic: the router is in no defined state
   strict : Bool := false          -- the router was built with StrictLastSlash
+  fb : Bool := false              -- the router was built with HandleFallbackRoute
 
 def RegSt.init : RegSt := { opt405 := false, bufs := [], lines := [], st := some RS.init }
 
-/-- option mask of `new`: bit 1 HandleMethodNotAllowed, bit 2 StrictLastSlash -/
+/-- option mask of `new`: bit 1 HandleMethodNotAllowed, bit 2 StrictLastSlash, bit 4 HandleFallbackRoute -/
 def optMask (o : String) : Nat := (o.toNat?).getD 0
 def RegSt.fresh (o : String) : RegSt :=
-  { RegSt.init with opt405 := optMask o % 2 = 1, strict := (optMask o / 2) % 2 = 1 }
+  { RegSt.init with opt405 := optMask o % 2 = 1, strict := (optMask o / 2) % 2 = 1, fb := (optMask o / 4) % 2 = 1 }
+
+/-- `QuickMatch`'s fallback step: with HandleFallbackRoute, a request that matched nothing (also not as HEAD→GET) is
+    answered by the route stored as `<method>/*` in the static table (the last one registered), BEFORE the 405 step -/
+def fbRoute (fb : Bool) (routes : List Route) (m : Bytes) : Option Route :=
+  if fb then (routes.filter fun r => isFixed r.path && r.methods.contains m && r.path == ascii "/*").getLast? else none
 
 def regLimit : Nat := 63
 def regCfg : Cfg := cleanCfg regLimit
@@ -239,14 +245,16 @@ partial def regStep (s : RegSt) : List String → RegSt × String
         let res :=
           if r.methods.contains mb then Resolved.found r
           else if m = "HEAD" ∧ r.methods.contains (Bytes.ofString "GET") then Resolved.found r
-          else if s.opt405 then Resolved.notAllowed else Resolved.notFound
+          else match fbRoute s.fb st.routes mb with
+            | some f => Resolved.found f
+            | none => if s.opt405 then Resolved.notAllowed else Resolved.notFound
         (s, chainAns st res)
       | none => (s, "none")
     | _, none => (s, "bad-op")
   | ["miss"] =>
     match s.st with
     | none => (s, "skipped")
-    | some st => (s, chainAns st .notFound)
+    | some _ => regStep s ["probe", "GET", Bytes.toHex (ascii "/no/such/route")]
   | ["routes"] =>
     match s.st with
     | none => (s, "skipped")
@@ -275,7 +283,14 @@ partial def regStep (s : RegSt) : List String → RegSt × String
     match s.st, Bytes.ofHex p with
     | none, _ => (s, "skipped")
     | some st, some p =>
-      match resolve s.opt405 st.routes (ascii m) (reqFmt s.strict p) with
+      let out :=
+        match resolve false st.routes (ascii m) (reqFmt s.strict p) with
+        | .served r => Outcome.served r
+        | _ =>
+          match fbRoute s.fb st.routes (ascii m) with
+          | some f => Outcome.served f
+          | none => resolve s.opt405 st.routes (ascii m) (reqFmt s.strict p)
+      match out with
       | .served r => (s, chainAns st (.found r))
       | .notAllowed alm =>
         -- the Allow header is written by the built-in 405 handler only
